@@ -180,7 +180,7 @@ func VsymC20() {
 		full := op == nOps-1
 		shape := 0
 		if full {
-			shape = vr.Choice("sourceShape", 7)
+			shape = vr.Choice("sourceShape", 8)
 		}
 		switch shape {
 		case 1:
@@ -196,6 +196,8 @@ func VsymC20() {
 			src.candidate = "notation-" // empty plugin name
 		case 6:
 			src.subNamed = true
+		case 7:
+			src.candidate = "notation-Foo" // the metadata names the plugin in another letter case
 		}
 		if full {
 			src.candExec = vr.Choice("candidateExec", 2) == 1
